@@ -585,12 +585,18 @@ where
     let mut validation_errors: Vec<Error> = Vec::new();
 
     loop {
-        match src.peek()? {
+        match src
+            .peek()
+            .map_err(|e| maybe_with_snippet(e, input, with_snippet, crop_radius))?
+        {
             // Skip documents that are explicit null-like scalars ("", "~", or "null").
             Some(Ev::Scalar {
                 value: s, style, ..
             }) if scalar_is_nullish(s, style) => {
-                let _ = src.next()?; // consume the null scalar document
+                // consume the null scalar document
+                let _ = src
+                    .next()
+                    .map_err(|e| maybe_with_snippet(e, input, with_snippet, crop_radius))?;
                 continue;
             }
             Some(_) => {
@@ -975,12 +981,18 @@ where
     let mut validation_errors: Vec<Error> = Vec::new();
 
     loop {
-        match src.peek()? {
+        match src
+            .peek()
+            .map_err(|e| maybe_with_snippet(e, input, with_snippet, crop_radius))?
+        {
             // Skip documents that are explicit null-like scalars ("", "~", or "null").
             Some(Ev::Scalar {
                 value: s, style, ..
             }) if scalar_is_nullish(s, style) => {
-                let _ = src.next()?; // consume the null scalar document
+                // consume the null scalar document
+                let _ = src
+                    .next()
+                    .map_err(|e| maybe_with_snippet(e, input, with_snippet, crop_radius))?;
                 continue;
             }
             Some(_) => {
@@ -1387,12 +1399,18 @@ pub fn from_multiple_with_options<T: DeserializeOwned>(
     let mut values = Vec::new();
 
     loop {
-        match src.peek()? {
+        match src
+            .peek()
+            .map_err(|e| maybe_with_snippet(e, input, with_snippet, crop_radius))?
+        {
             // Skip documents that are explicit null-like scalars ("", "~", or "null").
             Some(Ev::Scalar {
                 value: s, style, ..
             }) if scalar_is_nullish(s, style) => {
-                let _ = src.next()?; // consume the null scalar document
+                // consume the null scalar document
+                let _ = src
+                    .next()
+                    .map_err(|e| maybe_with_snippet(e, input, with_snippet, crop_radius))?;
                 // Do not push anything for this document; move to the next one.
                 continue;
             }
